@@ -497,7 +497,13 @@ void watchdogLoop() {
     FutexStats fs = futexStats();
     bool exitsStable = fs.waitExits == exitsAtFlat;
     const char* kind = nullptr;
-    if (cpu >= T * 0.5) {
+    // A busy process without monitor progress is only called a livelock after a 3x longer window:
+    // legitimately slow phases exist that burn CPU without progress events (observed: pthread_join
+    // under TSan releasing shadow memory with madvise on a loaded machine took > 10 s). A true
+    // livelock stays flat for ever, so it is still caught; the parked-threads (deadlock) verdict,
+    // whose evidence is direct, keeps the short window.
+    if (cpu >= flat * 0.4) {
+      if (flat < 3.0 * T) continue;
       kind = "livelock";
     } else if (cpu < T * 0.05 && exitsStable && fs.inWaitNow > 0) {
       kind = "deadlock";
@@ -523,13 +529,28 @@ void watchdogLoop() {
         .kv("hooks", hookStats());
     emitLine(j.str());
     fprintf(stderr, "@@VRT %s case %ld\n", kind ? "hang" : "inconclusive", g_curCase.load());
+    // witness: stacks of all threads (best effort; gdb attaches to its parent, we are root)
+    if (!(getenv("VRT_GDB_ON_HANG") && getenv("VRT_GDB_ON_HANG")[0] == '0')) {
+      fflush(stderr);
+      char cmd[512];
+      snprintf(cmd, sizeof cmd,
+               "timeout 90 gdb -p %d -batch -ex 'set pagination off' -ex 'thread apply all bt 16' 2>&1 | "
+               "grep -v '^\\[New LWP\\|^warning\\|^Reading\\|^$' | cut -c1-220 | head -n 500 >&2",
+               static_cast<int>(getpid()));
+      fprintf(stderr, "@@VRT stacks begin\n");
+      fflush(stderr);
+      int rcg = system(cmd);
+      (void)rcg;
+      fprintf(stderr, "@@VRT stacks end\n");
+      fflush(stderr);
+    }
     _exit(kind ? 3 : 4);
   }
 }
 } // namespace
 
 void watchdogArm(int flatSeconds) {
-  if (flatSeconds <= 0) flatSeconds = thorough() ? 20 : 10;
+  if (flatSeconds <= 0) flatSeconds = (thorough() ? 20 : 10) * (VRT_TSAN ? 2 : 1);
   w_armed.store(flatSeconds, std::memory_order_relaxed);
 }
 void watchdogDisarm() {
